@@ -1,5 +1,11 @@
 package main
 
-import "os"
+import (
+	"os"
+
+	"github.com/ddddddO/gtree"
+)
 
 func readFile(p string) ([]byte, error) { return os.ReadFile(p) }
+
+func noIterOpt() gtree.Option { return gtree.WithNoUseIterOfSimpleOutput() }
